@@ -159,6 +159,16 @@ def f(k, v):
     if k:
         return x
 ''', [('x', 'unbound')]),
+ 'noreturn_helper': ('''
+def f(k):
+    if k == 1:
+        x = 1
+    elif k == 2:
+        x = 2
+    else:
+        refuse(k)
+    return x
+''', []),
  'complement_compare': ('''
 def f(s, m):
     if s == 'a':
@@ -174,7 +184,8 @@ def run_cases(analyse) -> list:
     bad = []
     for name, (src, want) in CASES.items():
         fn = ast.parse(textwrap.dedent(src)).body[0]
-        got = sorted({(x.name, x.grade) for x in analyse(fn).findings})
+        got = sorted({(x.name, x.grade) for x in analyse(fn, noreturn=lambda c: isinstance(c.func, ast.Name) and
+                                                          c.func.id == 'refuse').findings})
         if got != sorted(want):
             bad.append(f'{name}: got {got}, expected {sorted(want)}')
     return bad
